@@ -176,7 +176,7 @@ theorem readF32_on_f32 (o : Opts) (bits : Nat) (hbits : bits < 2 ^ 32) (bs : Byt
 
 theorem readF32_on_f64 (o : Opts) (bits : Nat) (hbits : bits < 2 ^ 64) (bs : Bytes) (hb : BytesOk bs) (pos : Nat) (rest : Bytes)
     (hd : bs.drop pos = 0xCB :: beBytes 8 bits ++ rest) :
-    readF32 o bs pos = convertByPolicy (if Ieee.inFloatRange bits then some (Ieee.f64ToF32 bits) else none) o (pos + 9) := by
+    readF32 o bs pos = convertByPolicy (if Ieee.toFloatOk bits then some (Ieee.f64ToF32 bits) else none) o (pos + 9) := by
   obtain ⟨h1, h2, _⟩ := drop_cons_facts hd
   simp only [List.append_eq] at h2
   have g := getValue_on_be 8 (by simp [WidthOk]) bs hb (pos + 1) bits (by simpa using hbits) _ h2
